@@ -118,6 +118,31 @@ def work(job):
     return r
 
 
+def work_memcheck(job):
+    """the same cases on the uninstrumented build under valgrind memcheck (use of uninitialised values)"""
+    seed, lo, hi = job
+    r = core.JobResult()
+    tdir = make_tdir()
+    try:
+        with core.Session(r, timeout=20.0) as s:
+            for i in range(lo, hi):
+                rng = core.job_rng(seed, ID, 'memcheck', i)
+                op, fmt, ext, lang, flags, args, tag = gen_case(rng, tdir)
+                if op == 'CONVERT' and fmt in (1, 6, 7, 8, 10):
+                    fmt = 0          # deflated output carries miniz's (benign, suppressed) look-ahead taint into the result bytes
+                if len(args[0]) > 1500:
+                    args = [args[0][:1500]] + list(args[1:])
+                    if op == 'CRITIC' and flags & 16:
+                        continue
+                rep = s.call('memcheck:plain', op, fmt, ext, lang, flags, args, what='[memcheck %s fmt=%s ext=%#x]' % (tag, D.FMT_NAME.get(fmt), ext))
+                r.evaluations += 1
+                r.stats['exec:memcheck'] += 1
+                r.distinct.add(core.h64('mc', tag, fmt, ext, lang, flags, *args))
+    finally:
+        shutil.rmtree(tdir, ignore_errors=True)
+    return r
+
+
 def replay_known(chk):
     """Replay witnesses of known / fixed findings first (regression + 'observed in this run')."""
     r = core.JobResult()
@@ -142,6 +167,8 @@ def main():
     chunk = max(50, n // 64)
     jobs = [(chk.seed, lo, min(n, lo + chunk)) for lo in range(0, n, chunk)]
     chk.run_jobs(work, jobs)
+    nm = chk.scale(3200, 80000)
+    chk.run_jobs(work_memcheck, [(chk.seed, lo, min(nm, lo + 40)) for lo in range(0, nm, 40)])
     if chk.thorough and os.environ.get('VERIF_NO_FUZZ') != '1':
         from lib import fuzz
         fuzz.run(chk, runs=int(200000 * float(os.environ.get('VERIF_SCALE', '1') or 1)))
